@@ -44,7 +44,8 @@ def check(run, P):
     run.rule("C05.wrap", "every ordered id is wrapped and appended once; only no-ops "
              "are skipped", minimum=2)
     run.rule("C05.loops", "loops nested in declaration order, tuple positions feed "
-             "variable/lower/upper, guard innermost", minimum=5)
+             "variable/lower/upper; the guard of a looped statement is tested once, "
+             "outside the nest", minimum=6)
     run.rule("C05.cond", "guard wrapper: condition, condition-free copy in 'then', "
              "empty node in 'else_'", minimum=3)
     run.rule("C05.walker", "lower_node handles every node class the simplifier "
@@ -352,10 +353,9 @@ def _loops(run, P):
                why="wrapping inside-out must walk the loops in reverse, else the first "
                    "declared loop ends up innermost and a bound that uses an outer "
                    "loop variable is read before it exists")
-    # guard innermost: the body of the innermost loop is the guard wrapper
+    # loop-free statements (the recursion's base case) go through the guard wrapper
     param = f.params[0]
     if iterative is None:
-        # recursion bottoms out in the branch without loops
         base = [r for r in ast.walk(f.node) if isinstance(r, ast.Return)
                 and isinstance(r.value, ast.Call) and dotted(r.value.func) == "conditional_to_ast"
                 and r.value.args and dotted(r.value.args[0]) == param]
@@ -374,9 +374,44 @@ def _loops(run, P):
             and dotted(seed.value.func) == "conditional_to_ast"
         site = seed if seed is not None else iterative
     run.ob("C05.loops", f, site, ok,
-           construct="the innermost loop body is conditional_to_ast(<loop-free statement>)",
-           why="loops outermost, then guard: wrapped without the guard helper, a "
-               "guarded assignment with loops runs although its guard is false")
+           construct="a loop-free statement is lowered by conditional_to_ast(<statement>)",
+           why="wrapped without the guard helper, a guarded statement runs although "
+               "its guard is false")
+    # a guarded statement with loops: the guard is tested once, outside the nest
+    from ..engine.cfg import CFG, walk_fragment
+    from ..engine.match import leaves_with, terminal
+    g = CFG(f.node)
+    gtests = []
+    for n in g.nodes:
+        if n.kind == "test" and norm(n.ast) == f"{param}.condition is not True":
+            t = terminal(n.label.body)
+            if isinstance(t, ast.Return) and isinstance(t.value, ast.Call) \
+                    and dotted(t.value.func) in ("IfThenElse", "IfThen") and len(t.value.args) >= 2 \
+                    and norm(t.value.args[0]) == f"{param}.condition":
+                inner = t.value.args[1]
+                arg = inner.args[0] if isinstance(inner, ast.Call) and inner.args else None
+                if isinstance(arg, ast.Name):
+                    for s_ in n.label.body:
+                        if isinstance(s_, ast.Assign) and any(dotted(t_) == arg.id for t_ in s_.targets):
+                            arg = s_.value
+                if isinstance(inner, ast.Call) and dotted(inner.func) == "loop_to_ast_node" \
+                        and arg is not None and norm(arg) == f"{param}.copy(condition=True)" \
+                        and (len(t.value.args) == 2 or dotted(t.value.args[2].func
+                                                             if isinstance(t.value.args[2], ast.Call)
+                                                             else t.value.args[2]) == "NullASTNode"):
+                    gtests.append(n)
+    loops_built = [n for n in g.nodes if n.ast is not None and n.kind == "stmt" and any(
+        x is ctor[0] for x in walk_fragment(n.ast))]
+    ok = bool(gtests) and bool(loops_built) and not g.always_preceded(loops_built, gtests)
+    # (C05.wrap pins the caller to `append(loop_to_ast_node(<statement>))`, so the guard
+    # of a looped statement can only be applied inside this function)
+    run.ob("C05.loops", f, gtests[0].ast if gtests else f.node, ok,
+           construct="guarded statement with loops: IfThenElse(condition, <loop nest of the "
+                     "condition-free copy>, empty) - the test dominates every ForLoop built",
+           why="the interpreter tests the guard once and only then evaluates the loop "
+               "bounds; with the loops outside, generated code evaluates bounds that are "
+               "only defined when the guard holds (UnboundLocalError where the "
+               "interpreter completes the step) and re-tests the guard on every iteration")
     top = [n for n in ast.walk(f.node) if isinstance(n, ast.If)
            and f"{param}.loops" in ast.unparse(n.test)]
     run.ob("C05.loops", f, top[0] if top else f.node, bool(top),
